@@ -528,8 +528,16 @@ func (tr *translator) expr(x ast.Expr, e env) Sum {
 				return SConst{Value{Kind: VObj, Obj: o, Type: o.Type()}}
 			}
 		case *types.Nil:
-			if _, ok := tr.info.TypeOf(n).Underlying().(*types.Map); ok {
-				return SConst{Value{Kind: VNilTable}}
+			// a nil map (typed by context, or the untyped nil returned from a function whose result is a map)
+			if t := tr.info.TypeOf(n); t != nil {
+				if _, ok := t.Underlying().(*types.Map); ok {
+					return SConst{Value{Kind: VNilTable}}
+				}
+			}
+			if res := tr.s.Fn.Type().(*types.Signature).Results(); res.Len() == 1 {
+				if _, ok := res.At(0).Type().Underlying().(*types.Map); ok {
+					return SConst{Value{Kind: VNilTable}}
+				}
 			}
 		}
 		tr.fail(n.Pos(), "identifier %s is outside the fragment", n.Name)
@@ -622,15 +630,16 @@ func boolVal(b bool) Value {
 	return Value{Kind: VConst, C: constant.MakeBool(b), Type: types.Typ[types.Bool]}
 }
 
-func (f *Facts) evalBool(s Sum, b map[*types.Var]Value) (bool, Value) {
+// evalBool evaluates a condition; ok is false when it could not be decided (bad then says why).
+func (f *Facts) evalBool(s Sum, b map[*types.Var]Value) (val bool, bad Value, ok bool) {
 	v := f.eval(s, b)
 	if v.Kind != VConst || v.C == nil || v.C.Kind() != constant.Bool {
 		if v.Kind == VInvalid || v.Kind == VAmbiguous {
-			return false, v
+			return false, v, false
 		}
-		return false, Value{Kind: VInvalid, Why: "condition is not a boolean: " + v.String()}
+		return false, Value{Kind: VInvalid, Why: "condition is not a boolean: " + v.String()}, false
 	}
-	return constant.BoolVal(v.C), Value{}
+	return constant.BoolVal(v.C), Value{}, true
 }
 
 func (f *Facts) evalTable(s Sum, b map[*types.Var]Value) (*Table, bool, Value) {
@@ -731,14 +740,14 @@ func (f *Facts) eval(s Sum, b map[*types.Var]Value) Value {
 		eq := Same(av, bv) || (x.Fold && sameFold(av, bv))
 		return boolVal(eq != x.Neg)
 	case SNot:
-		v, bad := f.evalBool(x.X, b)
-		if bad.Kind != 0 {
+		v, bad, ok := f.evalBool(x.X, b)
+		if !ok {
 			return bad
 		}
 		return boolVal(!v)
 	case SBin:
-		av, bad := f.evalBool(x.A, b)
-		if bad.Kind != 0 {
+		av, bad, ok := f.evalBool(x.A, b)
+		if !ok {
 			return bad
 		}
 		if x.And && !av {
@@ -747,14 +756,14 @@ func (f *Facts) eval(s Sum, b map[*types.Var]Value) Value {
 		if !x.And && av {
 			return boolVal(true)
 		}
-		bv, bad := f.evalBool(x.B, b)
-		if bad.Kind != 0 {
+		bv, bad, ok := f.evalBool(x.B, b)
+		if !ok {
 			return bad
 		}
 		return boolVal(bv)
 	case SIte:
-		c, bad := f.evalBool(x.C, b)
-		if bad.Kind != 0 {
+		c, bad, ok := f.evalBool(x.C, b)
+		if !ok {
 			return bad
 		}
 		if c {
